@@ -33,7 +33,7 @@ ctr_ghost(void)
 	IN(unsigned, bufmode); \
 	uint8_t * in##_obj = malloc(bufmode >= 2 ? 2 * (len) : (len)); \
 	uint8_t * out##_obj = malloc(len); \
-	__CPROVER_assume(in##_obj != NULL && out##_obj != NULL && bufmode <= 1); \
+	__CPROVER_assume(in##_obj != NULL && out##_obj != NULL && bufmode <= 3); \
 	const uint8_t * in = (bufmode == 3) ? in##_obj + (len) : in##_obj; \
 	uint8_t * out = (bufmode == 0) ? out##_obj : (bufmode == 1) ? in##_obj : \
 	    (bufmode == 2) ? in##_obj + (len) : in##_obj
